@@ -894,6 +894,17 @@ func (t *streamableHTTPClientTransport) sendResponseToServer(response interface{
 		httpReq.Header.Set(httputil.SessionIDHeader, t.sessionID) // Use correct MCP protocol header: Mcp-Session-Id.
 	}
 
+	// Same customisation as every other request: configured path and before-request function.
+	if len(t.path) != 0 {
+		httpReq.URL.Path = t.path
+	}
+	if t.client != nil {
+		if err := t.client.applyHTTPBeforeRequest(ctx, httpReq); err != nil {
+			t.logger.Errorf("HTTP before-request failed for response: %v", err)
+			return
+		}
+	}
+
 	var resp *http.Response
 	resp, err = t.httpReqHandler.Handle(ctx, t.httpClient, httpReq) // Always use httpReqHandler as there's always a default value.
 
